@@ -98,7 +98,7 @@ class C30(Check):
     assumptions = ["inputs whose result the statement does not determine are not generated: GET/HEAD with a body, header values outside latin-1 "
                    "or with CR/LF or surrounding whitespace, multipart forms, a body for HEAD responses",
                    "server-side query / form arguments are read the way a WSGI application does: urllib.parse.parse_qsl(keep_blank_values=True)"]
-    required_probes = ["fargs", "data", "body", "qargs", "error", "stream", "unicode-path", "partial-delivery", "bodyless-without-length-then-another", "error-header", "query-in-path", "environ-checked-against-earlier-request"]
+    required_probes = ["fargs", "data", "body", "qargs", "error", "stream", "unicode-path", "partial-delivery", "bodyless-without-length-then-another", "error-header", "query-in-path", "environ-checked-against-earlier-request", "path-reused-from-earlier-request"]
     quick_runs = 8000
     thorough_runs = 400000
     shrink_fields = ["schedule", "reqs"]
@@ -121,13 +121,29 @@ class C30(Check):
         for _ in range(s.randint(0, 40)):
             r = s.random()
             sched.append(["c"] if r < 0.3 else ["s"] if r < 0.6 else ["d", s.randint(0, 1), s.choice([1, 3, 10, 1 << 20])])
-        return {"cap": g.choice([8, 64, 4096]), "bs": g.choice([2, 64, 4096]), "schedule": sched, "reqs": reqs, "resps": resps}
+        plan = {"cap": g.choice([8, 64, 4096]), "bs": g.choice([2, 64, 4096]), "schedule": sched, "reqs": reqs, "resps": resps}
+        # a later request issued without a path: the client reuses the path of the request before it (side generator: all other
+        # plans stay as they were)
+        import random as _r
+        sg = _r.Random(hashlib.sha256(repr(g.getstate()).encode()).hexdigest())
+        for i in range(1, n):
+            if sg.random() < 0.3 and (reqs[i]["method"] == "HEAD") == (reqs[i - 1]["method"] == "HEAD"):
+                reqs[i]["samepath"] = True
+        return plan
 
     def execute(self, plan):
         out = Outcome()
         tr = Trace(keep=False)
-        reqs, resps = plan["reqs"], plan["resps"][:len(plan["reqs"])]
+        reqs, resps = [dict(r) for r in plan["reqs"]], list(plan["resps"][:len(plan["reqs"])])
         n = len(reqs)
+        if n:
+            reqs[0].pop("samepath", None)
+        for i in range(1, n):
+            if reqs[i].get("samepath"):     # same path as the request before it, hence answered from the same shape
+                reqs[i]["path"] = reqs[i - 1]["path"]
+                reqs[i].pop("pathq", None)
+                resps[i] = resps[i - 1]
+                out.probe("path-reused-from-earlier-request")
         for r in reqs:
             if r["mode"] != "none":
                 out.probe(r["mode"])
@@ -147,22 +163,13 @@ class C30(Check):
             if not duo.connect():
                 raise RuntimeError("harness: duo did not connect")
             pat, valet = duo.patron, duo.valet
+            # with a path-less request in the plan the requests are issued one at a time, each after the response to the one
+            # before it (the client takes an omitted path from the request it transmitted last)
+            lazy = any(r.get("samepath") for r in reqs)
+            pending = list(reqs[1:]) if lazy else []
             try:
-                for r in reqs:
-                    kw = dict(method=r["method"], path=r["path"], headers=dict((k, v) for k, v in r["headers"]))
-                    if r.get("pathq"):
-                        from urllib.parse import urlencode
-                        kw["path"] = r["path"] + "?" + urlencode([(k, v) for k, v in r["pathq"]])
-                        out.probe("query-in-path")
-                    from ioflo.aid.odicting import odict
-                    kw["qargs"] = odict((k, v) for k, v in r["qargs"])
-                    if r["mode"] == "body":
-                        kw["body"] = bytes(r["body"])
-                    elif r["mode"] == "data":
-                        kw["data"] = r["data"]
-                    elif r["mode"] == "fargs":
-                        kw["fargs"] = odict((k, v) for k, v in r["fargs"])
-                    pat.request(**kw)
+                for r in (reqs[:1] if lazy else reqs):
+                    self._issue(pat, r, out)
             except Exception as ex:
                 out.violate("exception", "Patron.request raised %s" % type(ex).__name__, repr(ex))
 
@@ -184,6 +191,12 @@ class C30(Check):
                                 "%r\n%s" % (ex, traceback.format_exc()[-800:]))
                     return False
                 out.steps += 1
+                if pending and len(pat.responses) >= n - len(pending):
+                    try:
+                        self._issue(pat, pending.pop(0), out)
+                    except Exception as ex:
+                        out.violate("exception", "Patron.request raised %s" % type(ex).__name__, repr(ex))
+                        return False
                 return True
 
             ok = not out.violations
@@ -204,6 +217,24 @@ class C30(Check):
         out.state_digest = hashlib.sha256(json.dumps([repr(reqs), repr(resps)]).encode()).hexdigest()[:16]
         out.nontrivial = any(r["mode"] != "none" or r["qargs"] or r["headers"] for r in reqs)
         return out
+
+    def _issue(self, pat, r, out):
+        kw = dict(method=r["method"], path=r["path"], headers=dict((k, v) for k, v in r["headers"]))
+        if r.get("pathq"):
+            from urllib.parse import urlencode
+            kw["path"] = r["path"] + "?" + urlencode([(k, v) for k, v in r["pathq"]])
+            out.probe("query-in-path")
+        from ioflo.aid.odicting import odict
+        kw["qargs"] = odict((k, v) for k, v in r["qargs"])
+        if r.get("samepath"):
+            del kw["path"]
+        if r["mode"] == "body":
+            kw["body"] = bytes(r["body"])
+        elif r["mode"] == "data":
+            kw["data"] = r["data"]
+        elif r["mode"] == "fargs":
+            kw["fargs"] = odict((k, v) for k, v in r["fargs"])
+        pat.request(**kw)
 
     def _judge(self, out, pat, app, reqs, resps, tr):
         n = len(reqs)
